@@ -13,6 +13,8 @@ import AioftpModel.Driver.Throttle
 import AioftpModel.Driver.Transfer
 import AioftpModel.Driver.Counters
 import AioftpModel.Driver.PortPool
+import AioftpModel.Driver.Names
+import AioftpModel.Driver.Calendar
 
 open Codec Model Py
 
@@ -64,6 +66,8 @@ def handlePure : List String → Option String
   | "xfer" :: rest => DriverTransfer.handleTransfer rest
   | "cnt" :: rest => DriverCounters.handleCnt rest
   | "poolrun" :: rest => DriverPortPool.handlePortPool rest
+  | "names" :: rest => DriverNames.handleNames rest
+  | "calendar" :: rest => handleCalendar rest
   | _ => none
 
 def handle (st : DState) (line : String) : DState × String :=
